@@ -5,6 +5,7 @@ CONSTANTS
   ELens = {0, 1, 3}
   MaxLen = 3
   MaxPkts = 2
+  MaxHits = 2
   RecordHist = TRUE
   Depth = 6
 INVARIANT Emit
